@@ -113,6 +113,8 @@ class Negative(UnaryUfunc):
 class AddSequence(Operation):
     """Performs f(a, b, ..., z) = a + b + ... + z"""
 
+    weak_python_scalars = True
+
     def __call__(self, *input_vars: "Tensor") -> np.ndarray:
         assert len(input_vars) > 1, "`add_sequence` requires at least two operands"
         self.variables = input_vars
@@ -125,6 +127,8 @@ class AddSequence(Operation):
 
 class MultiplySequence(Operation):
     """Performs f(a, b, ..., z) = a * b * ... * z"""
+
+    weak_python_scalars = True
 
     def __call__(self, *input_vars: "Tensor") -> np.ndarray:
         self.variables = input_vars
